@@ -351,10 +351,10 @@ def sufOk : List Char → Bool
 
 def stripPrefix (p s : List Char) : Option (List Char) := if p.isPrefixOf s then some (s.drop p.length) else none
 
-/-- `_re_trivia_leading` / `_re_trivia_trailing` (fst_options.py:54-55) on strings without a trailing newline and
-with ASCII digits. -/
+/-- `_re_trivia_leading` / `_re_trivia_trailing` (fst_options.py:54-55): `(?=.) (?:all|block|none|…|) (?:[+-](?:\d+)?)? \Z`
+(non-empty, anchored at the very end; ASCII digits). -/
 def reTrivia (prefixes : List (List Char)) (s : List Char) : Bool :=
-  prefixes.any (fun p => match stripPrefix p s with | some r => sufOk r | none => false)
+  !s.isEmpty && prefixes.any (fun p => match stripPrefix p s with | some r => sufOk r | none => false)
 
 def leadPrefixes : List (List Char) := ["all".toList, "block".toList, "none".toList, []]
 def trailPrefixes : List (List Char) := ["all".toList, "block".toList, "none".toList, "line".toList, []]
